@@ -37,6 +37,7 @@ type scen struct {
 	Lattice string `json:"lattice"`
 	Workers int    `json:"workers"`
 	Every   int    `json:"yield_every_nth_evaluation"`
+	Policy  string `json:"scheduling_policy,omitempty"` // set in replay files of violations found under a fixed policy
 	Bound   int    `json:"bound"`
 	Prefix  []int  `json:"schedule_prefix,omitempty"`
 }
@@ -427,7 +428,22 @@ func main() {
 		}
 		j := &vlib.Job{}
 		p := prepare(sc, j)
-		x := vsync.RunOnce(sc.Prefix, true, p.body)
+		var x *vsync.Execution
+		if sc.Policy != "" {
+			step := 0
+			pol := map[string]func(n int, cur bool) int{
+				"last-enabled-first":   func(n int, _ bool) int { return n - 1 },
+				"round-robin":          func(n int, _ bool) int { step++; return step % n },
+				"alternate-first-last": func(n int, _ bool) int { step++; return (step % 2) * (n - 1) },
+			}[sc.Policy]
+			if pol == nil {
+				fmt.Fprintln(vlib.Out, "unknown scheduling policy in the replay file:", sc.Policy)
+				return
+			}
+			x = vsync.RunPolicy(pol, p.body)
+		} else {
+			x = vsync.RunOnce(sc.Prefix, true, p.body)
+		}
 		fmt.Fprintf(vlib.Out, "replay %+v\nreference %s\nobserved  %s\nfaults %v\n", sc, p.ref, p.obs(), x.Faults)
 		return
 	}
@@ -474,7 +490,47 @@ func main() {
 			return
 		}
 		obsSet := map[string]bool{}
-		st := vsync.ExploreAll(vsync.Options{Bound: sc.Bound, Stop: c.Expired, Shard: u.shard, NShards: shards, MaxExec: 300000, Prune: true, SymmetricSpawn: []string{"render.evalRoutines"}}, p.body, func(x *vsync.Execution, prefix []int) bool {
+		// three fixed scheduling policies first (cheap, and far from the default schedule everywhere): the most
+		// recently enabled thread first, round robin over the enabled threads, and alternating first / last
+		policyViolation := false
+		if u.shard == 0 {
+			step := 0
+			for pi, pol := range []func(n int, cur bool) int{
+				func(n int, _ bool) int { return n - 1 },
+				func(n int, _ bool) int { step++; return step % n },
+				func(n int, _ bool) int { step++; return (step % 2) * (n - 1) },
+			} {
+				step = 0
+				x := vsync.RunPolicy(pol, p.body)
+				j.States++
+				j.Transitions += int64(x.Steps)
+				r := sc
+				r.Policy = []string{"last-enabled-first", "round-robin", "alternate-first-last"}[pi]
+				if len(x.Faults) > 0 {
+					kind := "fault"
+					if x.Deadlock {
+						kind = "deadlock"
+					}
+					if len(x.Races) > 0 {
+						kind = "data-race|" + x.Races[0]
+					}
+					j.Violation(sc.Kind+"|"+kind, fmt.Sprintf("%s %s W=%d under policy %s: %v", sc.Kind, sc.Lattice, sc.Workers, r.Policy, x.Faults), r)
+					policyViolation = true
+				} else if o := p.obs(); o != p.ref {
+					policyViolation = true
+					j.Violation(sc.Kind+"|output-depends-on-schedule", fmt.Sprintf("%s %s W=%d: scheduling policy %s produced %s, reference %s", sc.Kind, sc.Lattice, sc.Workers, r.Policy, o, p.ref), r)
+				} else if e := p.exact(); e != p.refExact {
+					policyViolation = true
+					j.Violation(sc.Kind+"|output-depends-on-schedule", fmt.Sprintf("%s %s W=%d: scheduling policy %s produced vertex bits %s, the default schedule %s", sc.Kind, sc.Lattice, sc.Workers, r.Policy, e, p.refExact), r)
+				}
+			}
+		}
+		if policyViolation {
+			// already decided for this scenario; the exploration below would only repeat it
+			j.Count("scenarios-decided-by-a-fixed-policy", 1)
+			return
+		}
+		st := vsync.ExploreAll(vsync.Options{Bound: sc.Bound, Stop: c.Expired, Shard: u.shard, NShards: shards, MaxExec: 300000, Prune: true, ShallowFirst: true, SymmetricSpawn: []string{"render.evalRoutines"}}, p.body, func(x *vsync.Execution, prefix []int) bool {
 			o := p.obs()
 			obsSet[o] = true
 			rep := func() scen {
